@@ -197,6 +197,7 @@ func c11Oracle(s *c11State) (string, string) {
 		return "inspect", fmt.Sprintf("Inspect=%s reference %s", got, want)
 	}
 	// iteration by First/Rest down to empty
+	observe("map", fmt.Sprintf("%T", m), ref.Dump(mod))
 	if got, want := obs.DumpValue(m), ref.Dump(mod); got != want {
 		return "iteration", fmt.Sprintf("First/Rest iteration %s reference %s", got, want)
 	}
